@@ -763,6 +763,20 @@ class Interp:
         r = self.repo.resolve(fr.fn.module.name, n)
         return self._resolved_to_av(r, n)
 
+    def _fold_module_const(self, mod, node, depth=0):
+        if depth > 6:
+            return NOFOLD
+        env = {}
+        for nm in {x.id for x in ast.walk(node) if isinstance(x, ast.Name)}:
+            r = self.repo.resolve(mod.name, nm)
+            if isinstance(r, tuple) and r[0] == "const":
+                v = fold(r[1])
+                if v is NOFOLD:
+                    v = self._fold_module_const(r[2], r[1], depth + 1)
+                if v is not NOFOLD:
+                    env[nm] = v
+        return fold(node, env)
+
     def _resolved_to_av(self, r, n) -> AV:
         if isinstance(r, FunctionInfo):
             return AV(E, "func", r)
@@ -772,6 +786,9 @@ class Interp:
             if r[0] == "const":
                 node, mod = r[1], r[2]
                 v = fold(node)
+                if v is NOFOLD and ".idx_" in mod.name:
+                    # idx constants defined relative to another idx module (R_EQUIV = start + 0)
+                    v = self._fold_module_const(mod, node)
                 if v is not NOFOLD:
                     a = const(v) if not isinstance(v, (list, dict, set, tuple)) else AV(E, "const", v, sh.TOP)
                     if mod.name.startswith("pandapower.pypower.idx_") or mod.name.endswith("idx_bus_sc") or ".idx_" in mod.name:
